@@ -176,7 +176,9 @@ def _fixture(kind, text, project_id, is_admin):
 class World(object):
     def __init__(self, definitions=(), workbooks=(), clock=None,
                  defer_post_tx=False, db=None, expr_stub=None,
-                 conf=None, project_id='proj-a', is_admin=False):
+                 conf=None, project_id='proj-a', is_admin=False,
+                 sym_ids=False):
+        self.sym_ids = sym_ids
         self.project_id = project_id
         self.is_admin = is_admin
         self.definitions = list(definitions)
@@ -221,9 +223,14 @@ class World(object):
         spec_parser.clear_caches()
         st.callback(spec_parser.clear_caches)
         ids = itertools.count(1)
-        st.enter_context(env.patched(
-            mlu, 'generate_unicode_uuid',
-            lambda: 'u-%05d' % next(ids)))
+        def gen_id():
+            n = next(ids)
+            if self.sym_ids:
+                # uuids are random: their relative order (ORDER BY id) is a
+                # solver choice
+                return '%s-%05d' % (symx.choice('idp%d' % n, ['m', 'c']), n)
+            return 'u-%05d' % n
+        st.enter_context(env.patched(mlu, 'generate_unicode_uuid', gen_id))
         st.enter_context(env.patched(sched_base, '_SCHEDULER',
                                      FakeScheduler(self)))
         rpcq = QueueRPC(self)
